@@ -97,7 +97,8 @@ def _(c):
     c.ens("probabilities_at_least_floor", "forall(self.n_funs, lambda i: self.prob[i] >= self.gamma)", top=True, props=["C18"])
     c.ens("probabilities_sum_to_one", "sum_of(self.prob) == 1", top=True, props=["C18"])
     c.ens("hedge_wf", wf, props=["C18"])
-    c.may_raise("IndexError")
+    c.check_raises = True
+    c.raise_props = ("C09", "C18")
     c.may_raise("ValueError")
 
 
@@ -134,6 +135,7 @@ def _(c):
     GH_IN_BOX = INBOX("ghost.uc")
     c.loop(0, invariants={
         "c18_iter": "i >= 0 and implies(i == 0, rows(ghost.zc) == 0) and rows(ghost.uc) == rows(ghost.zc)",
+        "c09_pool_is_bound_after_the_first_generation": "implies(i > 0, not isunbound(us_candidates) and not isunbound(z_candidates))",
         "c18_pool_is_every_survivor": "implies(i > 0, rows(us_candidates) == rows(ghost.uc) and rows(z_candidates) == rows(ghost.zc) and "
                                       "forall(rows(ghost.zc), lambda k: z_candidates[k] == ghost.zc[k] and pteq(row(us_candidates, k), row(ghost.uc, k))))",
         "c18_survivors_in_box": GH_IN_BOX,
@@ -143,12 +145,17 @@ def _(c):
                                   "implies(rows(z) >= 1, exists(rows(us_candidates), lambda k: pteq(row(us, 0), row(us_candidates, k)) and z[0] == z_candidates[k])))",
     }, props=["C18"])
     # top-level clauses, stated at the return over the ghost pool of all survivors
-    c.ens("proposal_has_lowest_acquisition", "forall(rows(ghost.zc), lambda j: result[1] <= ghost.zc[j])", top=True, props=["C18"])
-    c.ens("proposal_is_a_surviving_candidate", "exists(rows(ghost.uc), lambda k: pteq(pt(result[0]), row(ghost.uc, k)) and result[1] == ghost.zc[k] and "
-          "result[1] == acqv(row(ghost.uc, k), func_logger.func_count))", top=True, props=["C18"])
+    c.ens("proposal_has_lowest_acquisition", "implies(rows(ghost.zc) >= 1, forall(rows(ghost.zc), lambda j: result[1] <= ghost.zc[j]))", top=True, props=["C18"])
+    c.ens("proposal_is_a_surviving_candidate", "implies(rows(ghost.zc) >= 1, exists(rows(ghost.uc), lambda k: pteq(pt(result[0]), row(ghost.uc, k)) and result[1] == ghost.zc[k] and "
+          "result[1] == acqv(row(ghost.uc, k), func_logger.func_count)))", top=True, props=["C18"])
+    c.ens("empty_search_set_when_nothing_survived", "implies(rows(ghost.zc) == 0, rows(us) == 0 and rows(z) == 0)", top=True, props=["C18", "C09"])
     c.ens("all_candidates_in_mesh_rounded_box", GH_IN_BOX, top=True, props=["C18"])
-    c.ens("proposal_in_search_box", "forall(func_logger.D, lambda j: optim_state['lb_search'][0][j] <= result[0][j] and result[0][j] <= optim_state['ub_search'][0][j])",
+    c.ens("proposal_in_search_box", "implies(rows(ghost.zc) >= 1, forall(func_logger.D, lambda j: optim_state['lb_search'][0][j] <= result[0][j] and result[0][j] <= optim_state['ub_search'][0][j]))",
           top=True, props=["C18"])
-    c.index_checks = True  # scalar indexing out of range raises IndexError (us[0] on an empty survivor set)
-    c.may_raise("IndexError", when="True")  # all candidates filtered out: us[0] on an empty set (C09 finding, not a C18 clause)
+    # C09: scalar indexing out of range raises IndexError in this function's semantics; no exception class other than the
+    # ValueError for an unknown acquisition function may leave it - in particular not when every candidate was filtered out
+    c.index_checks = True
+    c.unbound_checks = True
+    c.check_raises = True
+    c.raise_props = ("C09", "C18")
     c.may_raise("ValueError")
